@@ -27,8 +27,9 @@ def specs_for(ctx):
             tissue = {"kind": "equilibrium", "ncells": rng.choice([6, 10, 16] if method != "default" or ctx.quick else [6, 10, 16, 30]),
                       "mobius": rng.choice([0.0, 0.6, 1.2])}
             ext = 1.0
-        specs.append({"dynamic": True, "tissue": tissue, "k": rng.choice([1, 2, 4, 8]), "seed": rng.randrange(10 ** 9), "want": ["C03"],
-                      "nframes": nframes, "when": when, "align": rng.random() < 0.25, "step_frac": rng.choice([0.05, 0.15, 0.3]),
+        align = rng.random() < 0.33
+        specs.append({"dynamic": True, "tissue": tissue, "k": rng.choice([1, 1, 2]) if align else rng.choice([1, 2, 4, 8]), "seed": rng.randrange(10 ** 9), "want": ["C03"],
+                      "nframes": nframes, "when": when, "align": align, "step_frac": rng.choice([0.05, 0.15, 0.3]),
                       "sim": {"theta": rng.uniform(0, 2 * math.pi), "scale": 10 ** rng.uniform(-2, 2), "offset_sizes": rng.uniform(0, 2),
                               "extent": ext, "reflect": rng.random() < 0.3},
                       "build": {"fit": rng.choice(["dlite", "taubinSVD"])}, "solve": {"method": method}})
